@@ -8,7 +8,9 @@ CONSTANTS DT, MaxLen
 @GENERATED@
 
 VARIABLES s, r
-Init == \E n \in 0..MaxLen : \E x \in [1..n -> Alphabet] : s = x /\ r = Conv(DT, x)
+(* every string up to MaxLen over the alphabet, plus representative longer strings (ExtraStrings) *)
+Init == \/ \E n \in 0..MaxLen : \E x \in [1..n -> Alphabet] : s = x /\ r = Conv(DT, x)
+        \/ \E x \in ExtraStrings : s = x /\ r = Conv(DT, x)
 Next == UNCHANGED <<s, r>>
 Spec == Init /\ [][Next]_<<s, r>>
 
